@@ -235,6 +235,17 @@ impl ProgressDrawTarget {
         }
     }
 
+    /// Takes the number of blank padding lines that the last draw put above the bars: the caller
+    /// is about to make the draw target forget the topmost lines of the region, which starts
+    /// with these.
+    pub(crate) fn take_padding(&mut self) -> VisualLines {
+        match &mut self.kind {
+            TargetKind::Term { draw_state, .. } => std::mem::take(&mut draw_state.padding),
+            TargetKind::TermLike { draw_state, .. } => std::mem::take(&mut draw_state.padding),
+            _ => VisualLines::default(),
+        }
+    }
+
     /// Returns the number of lines the adjustment actually applied to: `Keep` can only retain
     /// lines that are on the screen, i.e. part of `last_line_count`.
     pub(crate) fn adjust_last_line_count(&mut self, adjust: LineAdjust) -> VisualLines {
@@ -504,6 +515,8 @@ pub(crate) struct DrawState {
     pub(crate) move_cursor: bool,
     /// Controls how the multi progress is aligned if some of its progress bars get removed, default is `Top`
     pub(crate) alignment: MultiProgressAlignment,
+    /// The number of blank lines the last draw put above the bars (bottom alignment only)
+    pub(crate) padding: VisualLines,
 }
 
 impl DrawState {
@@ -621,6 +634,7 @@ impl DrawState {
 
         term.flush()?;
         *bar_count = real_height + shift;
+        self.padding = shift;
 
         Ok(())
     }
